@@ -61,7 +61,25 @@ func drawSeed(rt *rapid.T, examples []seedProg) seedProg {
 
 func drawSeedRaw(rt *rapid.T, examples []seedProg) seedProg {
 	pick := func(label string, n int) int { return rapid.IntRange(0, n-1).Draw(rt, label) }
-	switch rapid.IntRange(0, 10).Draw(rt, "seedkind") {
+	switch rapid.IntRange(0, 11).Draw(rt, "seedkind") {
+	case 11:
+		// recursion hundreds to thousands of activations deep (well inside what the interpreter handles), in
+		// several shapes: the result must not depend on how the recursive call is dressed
+		n := rapid.SampledFrom([]int{50, 300, 1000, 2000, 3000, 4500}).Draw(rt, "recursionDepth")
+		var b strings.Builder
+		switch rapid.IntRange(0, 3).Draw(rt, "recursionShape") {
+		case 0:
+			fmt.Fprintf(&b, "%s down(n) { %s (n == 0) %s 0; %s 1 + down(n - 1); }\n%s down(%d);\n", bn.KwFun, bn.KwIf, bn.KwReturn, bn.KwReturn, bn.KwPrint, n)
+		case 1:
+			fmt.Fprintf(&b, "%s acc(n, total) { %s (n == 0) { %s total; } %s acc(n - 1, total + n); }\n%s acc(%d, 0);\n", bn.KwFun, bn.KwIf, bn.KwReturn, bn.KwReturn, bn.KwPrint, n)
+		case 2:
+			fmt.Fprintf(&b, "%s even(n) { %s (n == 0) %s %s; %s odd(n - 1); }\n%s odd(n) { %s (n == 0) %s %s; %s even(n - 1); }\n%s even(%d);\n",
+				bn.KwFun, bn.KwIf, bn.KwReturn, bn.KwTrue, bn.KwReturn, bn.KwFun, bn.KwIf, bn.KwReturn, bn.KwFalse, bn.KwReturn, bn.KwPrint, n)
+		default:
+			fmt.Fprintf(&b, "%s build(n) { %s (n == 0) { %s []; } %s r = build(n - 1); %s %s(r) < 3 %s n %% 500 == 0; %s r; }\n%s %s(build(%d));\n",
+				bn.KwFun, bn.KwIf, bn.KwReturn, bn.KwVar, bn.KwPrint, bn.BLen, bn.KwAnd, bn.KwReturn, bn.KwPrint, bn.BLen, n)
+		}
+		return seedProg{Src: b.String(), Kind: "deep-recursion"}
 	case 10:
 		return seedProg{Src: genHigherOrder(rt), Kind: "higher-order"}
 	case 0:
